@@ -178,65 +178,6 @@ func defsOf(info *types.Info, root ast.Node, obj types.Object) (rhs []ast.Expr, 
 	return
 }
 
-// deadLits: function literals bound to a local that is never used again except
-// in `_ = f` (what is left of a closure argument once the calls through it were
-// expanded in place).
-func deadLits(info *types.Info, body ast.Node) map[*ast.FuncLit]bool {
-	out := map[*ast.FuncLit]bool{}
-	bind := func(o types.Object, v ast.Expr) {
-		lit, ok := ast.Unparen(v).(*ast.FuncLit)
-		if !ok || o == nil {
-			return
-		}
-		live := false
-		var stack []ast.Node
-		ast.Inspect(body, func(n ast.Node) bool {
-			if n == nil {
-				stack = stack[:len(stack)-1]
-				return true
-			}
-			stack = append(stack, n)
-			if id, isId := n.(*ast.Ident); isId && info.Uses[id] == o {
-				blank := false
-				if len(stack) >= 2 {
-					if as, isAs := stack[len(stack)-2].(*ast.AssignStmt); isAs && len(as.Lhs) == 1 && len(as.Rhs) == 1 && as.Rhs[0] == ast.Expr(id) {
-						if b, isB := as.Lhs[0].(*ast.Ident); isB && b.Name == "_" {
-							blank = true
-						}
-					}
-				}
-				if !blank {
-					live = true
-				}
-			}
-			return true
-		})
-		if !live {
-			out[lit] = true
-		}
-	}
-	ast.Inspect(body, func(n ast.Node) bool {
-		switch s := n.(type) {
-		case *ast.AssignStmt:
-			if len(s.Lhs) == len(s.Rhs) && s.Tok == token.DEFINE {
-				for i, l := range s.Lhs {
-					if id, ok := l.(*ast.Ident); ok {
-						bind(info.Defs[id], s.Rhs[i])
-					}
-				}
-			}
-		case *ast.ValueSpec:
-			if len(s.Names) == len(s.Values) {
-				for i, nm := range s.Names {
-					bind(info.Defs[nm], s.Values[i])
-				}
-			}
-		}
-		return true
-	})
-	return out
-}
-
 // ---------------------------------------------------------------------------
 // R2 update step, R1 table and masks
 
